@@ -53,6 +53,14 @@ def units(rng, tier):
         if rng.random() < 0.4:
             a2, cmp2 = rng.choice(PACK)
             us.append(pack_unit(a2, C, [min(v, C) for v in cv], family="pack-dense", cmp=cmp2))
+    # covers on big / medium items plus ZERO-VALUED items only (every small item is worth 0): an emptiness test written as a truthiness
+    # test on the values takes the small class for empty
+    for _ in range(300 if tier == "quick" else 4000):
+        C = rng.choice([6, 9, 10, 12, 14, 16, 17, 23, 30])
+        cv = [rng.randint(-(-C // 3), C + 2) for _ in range(rng.randint(1, 5))] + [0] * rng.randint(1, 3)
+        rng.shuffle(cv)
+        a, cmp = rng.choice(COV + [COV[-1]])
+        us.append(pack_unit(a, C, cv, family="cover-zero-valued-small-items", cmp=cmp))
     for _ in range(10 if tier == "quick" else 100):
         n = rng.choice([40, 64, 65, 100, 129, 150, 300])
         C = rng.choice([100, 1000])
